@@ -31,6 +31,9 @@ RULE = ('2-3 engines, histories of 6-24 operations each over {atom, assert_fact/
         '(shared inside one fact, partially bound) under one key, optionally reached through a rule; 3-6 generator slots on that '
         'predicate opened / advanced / finished in non-nested order (mostly oldest first: closed, dropped, replaced, exhausted '
         'while a younger one stays suspended, then a new one), query patterns from a small pool of constants (clash / compatible). '
+        'Family MB (40 quick / 400 thorough): the mixed histories in which 25-55 % of the body goals are X \\= Y, once(G), call(G, A..), '
+        'findall(T, G, L) (G over fact / earlier rule predicates, a database builtin, or nested once/call/findall; through a variable; rarely not '
+        'callable) and 22 % of the queries are started on these builtins themselves. '
         'Family SH: the SAME Python objects given to 2-3 engines of one run - function objects (*args / (first, *rest) / fixed '
         'signature; def, bound method, callable instance, functools.wraps, partial) registered under different styles (arity None / -1 / k), '
         'tuples of argument term objects asserted through the three assert APIs, one script string - with clear() at any moment and '
@@ -47,7 +50,7 @@ TRUSTED_BASE = [
     'no axioms: all C04 theorems are closed under the global context',
     'hand-written model Engine/World.v of YP.__init__/clear/atom/assert_fact/asserta/assertz/retract/retractall/'
     'register_function/load_script_from_string/query/match_dynamic/Answer.match, of suspended query generators and of the '
-    'builtins asserta/assertz/retract/retractall called from clause bodies; '
+    'builtins asserta/assertz/retract/retractall and \\=, call/N, once, findall (builtin_neq, YP.call, YP.once, YP.findall) called from clause bodies; '
     'tied to /repo by this differential run (not by translation)',
     'compiled clauses are modelled as (head arguments, list of goals): the translation of Prolog text to Python text is '
     'the business of C01/C11; here the compiler is only used to produce the scripts that are loaded',
@@ -1761,6 +1764,32 @@ def builtin_corpus():
           ['start', 2, 'p', [f('f', v(2)), a('c')]], ['next', 2], ['start', 0, 'p', [v(3), v(4)]], ['next', 0], ['peek', [v(1), v(2), v(3)]],
           ['next', 1], ['next', 2], ['next', 1], ['drain', 0], ['next', 2]]
     L.append({'neng': 2, 'family': 'nl', 'scripts': [[['t', 1, [[[v(0)], [['p', [v(0), v(1)]]]]]]]], 'hist': [h0, h1], 'sched': rr(h0, h1)})
+    # the meta-call builtins (Coq: C04_nonvacuous_meta, the same schedule): u(L) :- findall(s(X,Y), p(X), L).  f(X) :- once(p(X)).
+    # n(X) :- p(X), X \\= a.  c(X) :- G = p, call(G, X).  loaded into both engines over different p/1
+    mscript = [['u', 1, [[[v(0)], [['findall', [f('s', v(1), v(2)), f('p', v(1)), v(0)]]]]]],
+               ['f', 1, [[[v(0)], [['once', [f('p', v(0))]]]]]],
+               ['n', 1, [[[v(0)], [['p', [v(0)]], ['\\=', [v(0), a('a')]]]]]],
+               ['c', 1, [[[v(0)], [['=', [v(1), a('p')]], ['call', [v(1), v(0)]]]]]]]
+    h0 = [['assert', True, 'p', [a('a')], 0], ['assert', True, 'p', [a('b')], 1], ['load', True, 0], ['start', 0, 'c', [v(0)]], ['next', 0],
+          ['start', 1, 'u', [v(1)]], ['next', 1], ['start', 2, 'f', [v(2)]], ['next', 2], ['next', 2], ['next', 0], ['next', 0],
+          ['start', 3, 'n', [v(3)]], ['drain', 3], ['atom', '=']]
+    h1 = [['assert', True, 'p', [a('c')], 0], ['load', True, 0], ['start', 0, 'n', [v(0)]], ['next', 0], ['start', 1, 'u', [v(1)]], ['next', 1], ['next', 0]]
+    L.append({'neng': 2, 'family': 'mb', 'meta': True, 'scripts': [mscript], 'hist': [h0, h1],
+              'sched': [0, 1, 0, 0, 1, 0, 1, 0, 1, 0, 0, 1, 1, 0, 0, 0, 0, 1, 0, 0, 0, 0]})
+    # writes inside findall / once while a reader of the key is suspended; a user definition of '=' seen by \\= ;
+    # findall and once as queries of their own; nested findall; the bag partially bound
+    mscript2 = [['t', 1, [[[v(0)], [['findall', [v(1), f('retract', f('q', v(1))), v(0)]], ['once', [f('assertz', f('q', a('n')))]]]]]],
+                ['s', 2, [[[v(0), v(1)], [['findall', [f('g', v(2), v(3)), f('findall', v(4), f('p', v(4)), v(3)), v(0)]],
+                                          ['findall', [v(5), f('once', f('p', v(5))), terms.mklist([v(1)], v(6))]]]]]]]
+    h0 = [['assert', True, 'q', [a('a')], 0], ['assert', True, 'q', [a('b')], 0], ['assert', True, 'p', [a('x')], 0], ['assert', True, 'p', [a('y')], 0],
+          ['load', True, 0], ['start', 0, 'q', [v(0)]], ['next', 0], ['start', 1, 't', [v(1)]], ['next', 1], ['next', 0], ['next', 0],
+          ['start', 2, 's', [v(2), v(3)]], ['next', 2], ['peek', [v(2), v(3)]], ['next', 2],
+          ['start', 1, 'findall', [f('f', v(4), v(5)), f('p', v(4)), v(6)]], ['next', 1], ['peek', [v(4), v(6)]],
+          ['start', 2, 'q', [v(7)]], ['drain', 2]]
+    h1 = [['assert', True, 'p', [a('x')], 0], ['start', 0, '\\=', [a('a'), a('b')]], ['next', 0], ['assert', True, '=', [a('a'), a('b')], 0],
+          ['start', 1, '\\=', [a('a'), a('b')]], ['next', 1], ['next', 0], ['start', 2, 'once', [f('p', v(0))]], ['next', 2], ['peek', [v(0)]], ['next', 2],
+          ['start', 2, 'call', [a('p'), v(1)]], ['drain', 2]]
+    L.append({'neng': 2, 'family': 'mb', 'meta': True, 'writes': True, 'scripts': [mscript2], 'hist': [h0, h1], 'sched': rr(h0, h1)})
     return L
 
 # ------------------------------------------------------------------ reporting
